@@ -409,7 +409,12 @@ def h_open(file, mode="r", *a, **kw):
     # any other way of opening a name of the archive under test for writing is not part of the protocol
     pr.point(("open-w", file))
     w.trace.append(("other-op", "open:" + mode + ":" + n[0]))
-    return _real["open"](file, mode, *a, **kw)
+    f = _real["open"](file, mode, *a, **kw)
+    if "b" in mode:
+        # not a trace of the model any more, but the search for a failing schedule goes on: writes through this
+        # descriptor are scheduling points like those of the protocol's temporary file (seed C09-3)
+        return WriteProxy(pr, f)
+    return f
 
 
 def h_named_tmp(*a, **kw):
@@ -457,7 +462,8 @@ def install_hooks():
     for nm in ("stat", "makedirs", "mkdir", "chmod", "link", "unlink", "remove", "replace", "rename"):
         _real[nm] = getattr(os, nm)
     _real["open"] = builtins.open
-    _real["NamedTemporaryFile"] = A.NamedTemporaryFile
+    _real["NamedTemporaryFile"] = getattr(A, "NamedTemporaryFile", tempfile.NamedTemporaryFile)
+    _real["had_NamedTemporaryFile"] = hasattr(A, "NamedTemporaryFile")
     _real["signal"] = signal.signal
     os.stat = _wrap_simple("stat", h_stat)
     os.makedirs = _wrap_simple("makedirs", h_makedirs)
@@ -490,7 +496,13 @@ def uninstall_hooks():
         del A.open
     except AttributeError:
         pass
-    A.NamedTemporaryFile = _real["NamedTemporaryFile"]
+    if _real.get("had_NamedTemporaryFile", True):
+        A.NamedTemporaryFile = _real["NamedTemporaryFile"]
+    else:
+        try:
+            del A.NamedTemporaryFile
+        except AttributeError:
+            pass
     signal.signal = _real["signal"]
     _PATCHED = False
 
